@@ -110,6 +110,10 @@ func (n *Grammar) Equal(rhs Node) bool {
 		return false
 	}
 
+	if n.Name != nn.Name {
+		return false
+	}
+
 	if len(n.Decls) != len(nn.Decls) {
 		return false
 	}
